@@ -19,6 +19,9 @@ type SolverCfg struct {
 	Parallel  int
 	Thorough  bool // consult all solvers and cross-check
 	KeepFiles bool
+	// obligations recorded as known findings: they are expected to fail, so they get a short budget and no retry
+	// (a listed obligation that has become provable is still discharged if it is proved within that budget)
+	Known map[string]bool
 }
 
 type solverSpec struct {
@@ -165,6 +168,9 @@ func Discharge(units []*Unit, cfg SolverCfg) {
 	if !cfg.Thorough {
 		var again []job
 		for _, j := range hard {
+			if cfg.Known[j.o.Name] {
+				continue
+			}
 			if j.o.Status == "timeout" || j.o.Status == "unknown" || j.o.Status == "error" && j.o.Solver != "size-cap" {
 				again = append(again, j)
 			}
@@ -288,6 +294,9 @@ func fetchModel(u *Unit, o *Obligation, s solverSpec, cfg SolverCfg) {
 }
 
 func stage2(u *Unit, o *Obligation, cfg SolverCfg) {
+	if cfg.Known[o.Name] && cfg.Timeout > 10*time.Second {
+		cfg.Timeout = 10 * time.Second
+	}
 	file := o.File
 	ctx, cancel := context.WithCancel(context.Background())
 	defer cancel()
